@@ -7,7 +7,7 @@
    progress needs a park_timeout to expire, livelock = step budget).  See DESIGN.md section 6 C05:
    this property is claimed at level "proof" only for the statements below ([..._partial]); the
    fairness step is not proved. *)
-From Grevm Require Import Base.Util Stm.Spec Stm.Core Stm.Inv Stm.InvProofs1 Stm.Safety.
+From Grevm Require Import Base.Util Stm.Spec Stm.Core Stm.Lemmas Stm.Inv Stm.InvProofs1 Stm.Safety Stm.Head.
 
 (* finality, commit publication and the committed index only ever advance, one step at a time,
    and stay ordered: no transaction can be left behind a boundary that moved past it *)
@@ -36,5 +36,51 @@ Proof.
   - apply (cs_in_range b s j I1 Hc).
 Qed.
 
+(* the inductive step of the termination argument: once every predecessor of j is final
+   (j = fidx), an attempt of j that begins then can meet no estimate in multi-version memory (it
+   is never blocked behind a predecessor), and every multi-version read its result records still
+   resolves whenever it is validated - however the other transactions, the finality and the commit
+   threads interleave afterwards.  So, as far as multi-version reads go, the head transaction
+   needs at most one more attempt; by induction on j every transaction needs finitely many.
+   (Reads of the fee recipient are validated by the reward history: C07.) *)
+Theorem C05_head_attempt_is_never_invalidated_partial :
+  forall (b : block) tr1 s0 j n s1 tr2 s,
+    run_trace b init tr1 = Some s0 -> j = fidx s0 -> step b s0 (XBegin j n) = Some s1 ->
+    run_trace b s1 tr2 = Some s -> inc s j = n ->
+    (forall l w e, lb (mv s l) j = Some (w, e) -> eest e = false) /\
+    (st s j <> Executing -> forall r l ver, res s j = Some r ->
+       lookup_ver l (mv_reads (rlog r)) = Some ver -> resolves s j l ver = true).
+Proof. exact head_attempt_stable. Qed.
+
+(* non-vacuity: a two-transaction block in which tx 1 reads what tx 0 wrote; tx 0 is executed,
+   validated and made final, then tx 1's first attempt begins at the head, reads tx 0's entry and
+   settles *)
+Definition ex_t0 : tx := {| body := Done (ROk [(0, 5)] 1); nonce_loc := 7; tx_nonce := 0 |}.
+Definition ex_t1 : tx :=
+  {| body := Rd 0 (fun o => Done (ROk [] (match o with Some (_, v) => v | None => 0 end))); nonce_loc := 8; tx_nonce := 0 |}.
+Definition ex_b : block :=
+  {| txs := [ex_t0; ex_t1]; pre := fun _ => 0; marker := fun _ => None; nonce_of := fun v => v; chk := false;
+     nonce_reason := fun _ _ => 0; ben_loc := None; ben_obs := fun _ => 0 |}.
+Definition ex_tr1 : list event :=
+  [XClaim 0 Initial 0; XBegin 0 1; XPublish 0 0 1 5 false; XRet 0 1 0 false; XStatus 0 false true; Tick 0 1;
+   Lower 0 0 1; XEnd 0 1; VClaim 0 Executed 1; VBegin 0 1 2; VScanned 0 false; VStatus 0 false 2; VEnd 0;
+   Finalize 0 1 1; XClaim 1 Initial 0].
+Definition ex_tr2 : list event := [XRead 1 0 (Some (0, 1)) false; XRet 1 1 0 false; XStatus 1 false true].
+Example C05_head_attempt_witness :
+  exists s0 s1 s, run_trace ex_b init ex_tr1 = Some s0 /\ fidx s0 = 1 /\ step ex_b s0 (XBegin 1 1) = Some s1 /\
+                  run_trace ex_b s1 ex_tr2 = Some s /\ inc s 1 = 1 /\ st s 1 = Executed /\
+                  exists r, res s 1 = Some r /\ lookup_ver 0 (mv_reads (rlog r)) = Some (Some (0, 1)).
+Proof.
+  destruct (run_trace ex_b init ex_tr1) as [s0|] eqn:E0; [|vm_compute in E0; discriminate].
+  destruct (step ex_b s0 (XBegin 1 1)) as [s1|] eqn:E1.
+  2:{ revert E1. vm_compute in E0. inversion E0; subst. vm_compute. discriminate. }
+  destruct (run_trace ex_b s1 ex_tr2) as [s|] eqn:E2.
+  2:{ revert E2. vm_compute in E0. inversion E0; subst. vm_compute in E1. inversion E1; subst. vm_compute. discriminate. }
+  exists s0, s1, s. vm_compute in E0. inversion E0; subst. vm_compute in E1. inversion E1; subst.
+  vm_compute in E2. inversion E2; subst. repeat split; try reflexivity.
+  eexists. split; reflexivity.
+Qed.
+
 Print Assumptions C05_boundaries_ordered_partial.
+Print Assumptions C05_head_attempt_is_never_invalidated_partial.
 Print Assumptions C05_no_critical_section_on_final_partial.
